@@ -378,7 +378,7 @@ pub fn run_case(c: &BkCase, stats: &mut Stats) -> Result<(), (String, String)> {
 const RULE: &str = "proptest: 3-bank worlds (generated decimals, SPL / Token-2022 / transfer-fee mints, oracles with EMA skew), 1-5 depositors with generated shares in the debt bank, a victim that borrows a generated fraction (up to all) of the liquidity against collateral whose price is then crashed (to the minimum or only partly = control), interest with fees accruing for a generated time, the collateral bank left operational / set reduce-only / paused by the admin after the borrow (its deposits are still the account's assets), insurance vault funded at {0, fraction of, exactly +-2 of, more than} the accrued debt, signer in {admin, risk admin, stranger} x permissionless flag, right / wrong bank. On success: signer entitled; account bankrupt under at least one admissible reading (spot/EMA x stored/accrued); debt in this bank > 0.0001; insurance used first and not overdrawn; deposit shares untouched for every depositor and total claims fall by exactly debt - cover; share value >= 0; wipe-out => bank killed, and a killed bank survives every configure_bank(operational_state) and refuses deposits; account disabled, debt cleared, total debt falls by the bad debt. Non-trivial = successful settlement with >= 2 depositors; regimes (insured / socialised / wipe-out) and rejection codes are counted.";
 
 pub fn run(ctx: &Ctx) -> Report {
-    let cases: u32 = ctx.tier.pick(2500, 250_000);
+    let cases: u32 = ctx.tier.pick(5000, 250_000);
     let mut rep = par_workers(ctx.threads, |wi| {
         let mut rep = Report::new(RULE);
         let strat = case_strategy();
